@@ -99,7 +99,7 @@ function mkWorld (opts = {}) {
     if (/^fnum\d*$/.test(k)) return mkFn(path + '.' + k, 'num')
     if (/^id\d*$/.test(k)) return mkFn(path + '.' + k, 'id')
     if (/^cb\d*$/.test(k)) return mkFn(path + '.' + k, 'cb')
-    if (/^(f\d*|out|trim|trimStart|trimEnd|concat|substring|substr|slice|replace|replaceAll|join|split|at|toString|toUpperCase|toLowerCase|padStart|padEnd|repeat|charAt|indexOf|startsWith|normalize|aloneMethod|plusOperator|tplOperator|default|class|call|apply|constructor|valueOf)$/.test(k)) return mkFn(path + '.' + k, k === 'out' ? 'undef' : 'str')
+    if (/^(f\d*|out|trim|trimStart|trimEnd|concat|substring|substr|slice|replace|replaceAll|join|split|at|toString|toUpperCase|toLowerCase|padStart|padEnd|repeat|charAt|indexOf|startsWith|normalize|aloneMethod|pad|noop|res|plusOperator|tplOperator|default|class|call|apply|constructor|valueOf)$/.test(k)) return mkFn(path + '.' + k, k === 'out' ? 'undef' : 'str')
     if (/^arr\d*$/.test(k)) return [' ⟦' + path + '.' + k + '.0⟧ ', ' ⟦' + path + '.' + k + '.1⟧ ']
     if (k === 'length') return 2
     if (k === 'then') return undefined // never a thenable
